@@ -219,17 +219,49 @@ def same_multiset(ctx, A, B, eq=None):
     if eq is None:
         def eq(a, b):
             return ctx.all(*[cell_same(ctx, x, y) for x, y in zip(a, b)]) if len(a) == len(b) else False
-    used = [False] * len(B)
-    rest = []
-    for a in A:
-        # (syntactic pre-matching only for plain equality: with a custom relation 'equal values' need not be related)
-        for j, b in enumerate(B):
-            if not custom and not used[j] and len(a) == len(b) and all(same_term(x, y) for x, y in zip(a, b)):
-                used[j] = True
-                break
-        else:
-            rest.append(a)
-    left = [b for j, b in enumerate(B) if not used[j]]
+    if not custom:
+        used = [False] * len(B)
+        rest = []
+        for a in A:
+            for j, b in enumerate(B):
+                if not used[j] and len(a) == len(b) and all(same_term(x, y) for x, y in zip(a, b)):
+                    used[j] = True
+                    break
+            else:
+                rest.append(a)
+        left = [b for j, b in enumerate(B) if not used[j]]
+    else:
+        # under a custom relation only *forced* pairs are fixed beforehand: an element with exactly one partner that is not
+        # definitely unrelated must be matched with it in every perfect matching (unit propagation); the relation values are
+        # kept, so the forced pairs still contribute their (possibly symbolic) condition
+        rel = [[eq(a, b) for b in B] for a in A]
+        ai, bj = list(range(len(A))), list(range(len(B)))
+        forced = []
+        changed = True
+        while changed and ai:
+            changed = False
+            for i in list(ai):
+                cand = [j for j in bj if rel[i][j] is not False]
+                if not cand:
+                    return False
+                if len(cand) == 1:
+                    forced.append(rel[i][cand[0]])
+                    ai.remove(i)
+                    bj.remove(cand[0])
+                    changed = True
+            for j in list(bj):
+                cand = [i for i in ai if rel[i][j] is not False]
+                if not cand:
+                    return False
+                if len(cand) == 1:
+                    forced.append(rel[cand[0]][j])
+                    ai.remove(cand[0])
+                    bj.remove(j)
+                    changed = True
+        if len(ai) > 6:
+            return False
+        alts = [ctx.all(*[rel[i][j] for i, j in zip(ai, p)]) for p in itertools.permutations(bj)] if ai else [True]
+        return ctx.all(ctx.all(*forced), ctx.any(*alts))
     if not rest:
         return True
     if len(rest) > 6:
